@@ -262,24 +262,26 @@ class TimedOut(Exception):
 
 
 class time_limit:
-	"""with time_limit(30): real_code(...)  -- raises TimedOut in the calling thread if the block runs longer (SIGALRM based)."""
+	"""with time_limit(30): real_code(...)  -- raises TimedOut in the calling thread if the block uses more than that much CPU time
+	of this process (ITIMER_PROF / SIGPROF): a busy machine cannot turn a slow but finite call into a false alarm, while a call that
+	loops or allocates without end still stops."""
 	def __init__(self, seconds):
 		self.seconds = seconds
 	def __enter__(self):
 		import signal, time
 		def on_alarm(signum, frame):
-			raise TimedOut('no result within %d s' % self.seconds)
-		self.t0 = time.time()
-		self.outer = signal.getitimer(signal.ITIMER_REAL)[0]          # an enclosing, possibly shorter, limit keeps its deadline
-		self.old = signal.signal(signal.SIGALRM, on_alarm)
-		signal.setitimer(signal.ITIMER_REAL, min(self.seconds, self.outer) if self.outer > 0 else self.seconds)
+			raise TimedOut('no result within %d s of CPU time' % self.seconds)
+		self.t0 = time.process_time()
+		self.outer = signal.getitimer(signal.ITIMER_PROF)[0]          # an enclosing, possibly shorter, limit keeps its deadline
+		self.old = signal.signal(signal.SIGPROF, on_alarm)
+		signal.setitimer(signal.ITIMER_PROF, min(self.seconds, self.outer) if self.outer > 0 else self.seconds)
 		return self
 	def __exit__(self, *exc):
 		import signal, time
-		signal.setitimer(signal.ITIMER_REAL, 0)
-		signal.signal(signal.SIGALRM, self.old)
+		signal.setitimer(signal.ITIMER_PROF, 0)
+		signal.signal(signal.SIGPROF, self.old)
 		if self.outer > 0:
-			signal.setitimer(signal.ITIMER_REAL, max(0.01, self.outer - (time.time() - self.t0)))
+			signal.setitimer(signal.ITIMER_PROF, max(0.01, self.outer - (time.process_time() - self.t0)))
 		return False
 
 
@@ -291,7 +293,7 @@ def guard(fn, *args, _limit=30, **kw):
 _wd_depth = [0]
 
 
-def install_watchdog(default=60, slow=180):
+def install_watchdog(default=120, slow=360):
 	"""Wrap every public function of the library modules (as seen from the harness) in a time limit, outermost call only.
 	A call that does not return raises TimedOut, which the streams report like any other exception of the code under check."""
 	import importlib, inspect, functools
